@@ -11,8 +11,9 @@ class C14(pure.Spec):
     design_ref = "DESIGN.md §5 C14"
     rule = ("State called in-process as a hyper Service with crafted requests (with and without the OnUpgrade extension): "
             "exhaustively, one deviation at a time from a valid upgrade request: method {GET,POST,HEAD,get,PUT} x path {/ws,/ws/,/x,"
-            "/health,/version,/WS,/ws?x=1,/} x each of the six headers in 9 variants (exact, absent, upper-case value, near-miss, "
-            "duplicate first bad / first good, empty, upper-case name, trailing space) x PSK configured or not x obfs x "
+            "/health,/version,/WS,/ws?x=1,/} x each of the six headers in 14 variants (exact, absent, upper-case value, near-miss, "
+            "duplicate first bad / first good, empty, upper-case name, trailing space, leading zero, leading plus, trailing '.0', a trailing octet beyond ASCII, "
+            "a letter replaced by a character that only Unicode case folding maps to it (Kelvin sign, long s)) x PSK configured or not x obfs x "
             "extension present; plus random combinations with presented PSK {equal, prefix, case variant, padded, empty, "
             "longer}; compared: response class, the four upgrade headers incl. the RFC 6455 accept hash (recomputed in the "
             "harness), body, and byte equality with the response of the same request on an unknown path. Cells = (config, "
